@@ -6,6 +6,7 @@ import vlib
 from vlib import coq_n, coq_bool, coq_list, coq_z
 
 PID = "C03"
+DUMMY = {"case": -1, "op": "none", "images": [], "steps": [], "hist": "", "old": [], "new": [], "unord": [], "names": [], "fs0": []}
 
 
 def fname(i, init):
@@ -270,11 +271,16 @@ def main(ck):
         "sequence then out-of-order files by sequence, per field (the cursor-level read path is C02's obligation)",
         "one replacement at a time is compared with the model; operations in which two compaction plans interleave are "
         "checked by the direct oracle only",
+        "an injected I/O error means: the file-system mutation did not happen and an error was returned (a failed intent-log write "
+        "leaves an empty, i.e. dirty, log file); stops are injected with DisableCompAndMerge from another goroutine",
+        "column model: no max-segment-limit split and no file-size split (not reached by the generated sizes outside the seglimit "
+        "cases, which are judged by the direct oracle only); the out-of-order merge is judged by the direct oracle only at column level",
     ]
     ck.cov["trusted_base"] = ["Coq 8.16.1 kernel + vm_compute (cases evaluation, Examples, refuted-mutant witnesses)",
                               "no axioms (Print Assumptions: closed)",
-                              "Go harness cmd/c03 + internal/crashfs (recording VFS, image copy), python driver props/C03/run.py",
-                              "hook lib/fileops/verif_export_c03.go (VerifSwapLocalFS)"]
+                              "Go harness cmd/c03 (crash, column, fault cases; fault-injecting VFS; one child process per column case) + "
+                              "internal/crashfs (recording VFS, image copy), python driver props/C03/run.py",
+                              "hooks lib/fileops/verif_export_c03.go (VerifSwapLocalFS), engine/immutable/verif_export_c09.go (stored counts)"]
     ck.coq_audit(["C03"])
     ok = ck.coq_build(["C03/Proofs.vo", "C03/Corr.vo", "C03/ColProofs.vo", "C03/ColCorr.vo", "C03/FaultProofs.vo", "C03/FaultCorr.vo"])
     if ok:
@@ -282,9 +288,9 @@ def main(ck):
     binp = ck.go_build("./cmd/c03", "c03")
     if not binp:
         return
-    n = 24 if ck.tier == "quick" else 400
+    n = 24 if ck.tier == "quick" else 120    # thorough: every torn prefix and every recovery sub-image, ~10 s per case
     ncol, nseg = (60, 16) if ck.tier == "quick" else (1500, 300)
-    nfault = 12 if ck.tier == "quick" else 200
+    nfault = 12 if ck.tier == "quick" else 150
     nchg = 16 if ck.tier == "quick" else 300
     if ck.replay:
         rp = json.load(open(ck.replay))
@@ -298,7 +304,7 @@ def main(ck):
             rc, out = ck.run([binp, "0", "0", "0", str(fcn + 1)], timeout=3000, env={"VERIF_SEED": str(rp.get("seed", ck.seed)), "VERIF_TIER": rp.get("tier", ck.tier)})
             faults = [json.loads(l) for l in out.splitlines() if l.startswith('{"faultcase"')]
             faults = [f for f in faults if f["faultcase"] == fcn]
-            insts = insts or [{"case": -1, "op": "none", "images": [], "steps": [], "hist": ""}]
+            insts = insts or [dict(DUMMY)]
         if rp.get("colcase") is not None:
             cc = int(rp["colcase"])
             a = [binp, "0", str(cc + 1), "0"] if cc < 100000 else ([binp, "0", "0", str(cc - 100000 + 1)] if cc < 200000 else
@@ -306,9 +312,9 @@ def main(ck):
             rc, out = ck.run(a, timeout=3000, env={"VERIF_SEED": str(rp.get("seed", ck.seed)), "VERIF_TIER": rp.get("tier", ck.tier)})
             cols = [json.loads(l) for l in out.splitlines() if l.startswith('{"colcase"')]
             cols = [c for c in cols if c["colcase"] == cc]
-            insts = insts or [{"case": -1, "op": "none", "images": [], "steps": [], "hist": ""}]
+            insts = insts or [dict(DUMMY)]
     else:
-        rc, out = ck.run([binp, str(n), str(ncol), str(nseg), str(nfault), str(nchg)], timeout=3000)
+        rc, out = ck.run([binp, str(n), str(ncol), str(nseg), str(nfault), str(nchg)], timeout=5400)
         insts = [json.loads(l) for l in out.splitlines() if l.startswith('{"case"')]
         cols = [json.loads(l) for l in out.splitlines() if l.startswith('{"colcase"')]
         faults = [json.loads(l) for l in out.splitlines() if l.startswith('{"faultcase"')]
